@@ -104,6 +104,11 @@ void fp2_inv_sim(fp2_t *c, const fp2_t *a, int n) {
 		return;
 	}
 
+	if (t == NULL) {
+		RLC_THROW(ERR_NO_MEMORY);
+		return;
+	}
+
 	for (i = 0; i < n; i++) {
 		fp2_null(t[i]);
 	}
